@@ -701,6 +701,7 @@ type Engine struct {
 var coinMu sync.Mutex
 
 type Emu struct {
+	concurrent bool // requests run concurrently: per-goroutine clocks only, no sample coins
 	nowByG sync.Map
 	v     *bttest.VerifServer
 	now   int64
@@ -714,6 +715,9 @@ func NewEmu(st bttest.Storage) *Emu {
 		// concurrent requests each carry their own clock value
 		if v, ok := e.nowByG.Load(goid()); ok {
 			return bigtable.Timestamp(v.(int64))
+		}
+		if e.concurrent {
+			return 0
 		}
 		return bigtable.Timestamp(e.now)
 	}})
@@ -920,10 +924,12 @@ func (e *Emu) exec(c Call) Resp {
 	g := goid()
 	e.nowByG.Store(g, c.Now)
 	defer e.nowByG.Delete(g)
-	e.now = c.Now
-	e.coins = c.Coins
-	e.ci = 0
-	if len(c.Coins) > 0 {
+	if !e.concurrent {
+		e.now = c.Now
+		e.coins = c.Coins
+		e.ci = 0
+	}
+	if len(c.Coins) > 0 && !e.concurrent {
 		// the coin of the row sample filter is a package variable: requests that use it run one at a time
 		coinMu.Lock()
 		defer coinMu.Unlock()
@@ -1098,4 +1104,19 @@ func (e *Emu) exec(c Call) Resp {
 		return Resp{Kind: "none"}
 	}
 	panic("req kind " + r.Kind)
+}
+
+// closeEmu closes the server's row stores, but does not wait forever: a handler that panicked while
+// holding the registry lock (finding BT-16) leaves the server wedged.
+func closeEmu(e *Emu) {
+	done := make(chan struct{})
+	go func() {
+		defer close(done)
+		defer func() { _ = recover() }()
+		e.v.Close()
+	}()
+	select {
+	case <-done:
+	case <-time.After(2 * time.Second):
+	}
 }
